@@ -18,11 +18,11 @@ meta = {"property": pid, "name": name, "base_commit": subprocess.run("git -C /re
 try:
     cfg = "cmake -G Ninja -S %s -B %s/_build -DBUILD_TESTING=ON -DCMAKE_BUILD_TYPE=RelWithDebInfo -DCMAKE_CXX_FLAGS=-Wno-error -DCMAKE_C_FLAGS=-Wno-error >/dev/null" % (WT, WT)
     rc, o = sh(cfg + " && cmake --build %s/_build -j8 >/dev/null" % WT); assert rc == 0, o[-2000:]
-    rc0, o0 = sh("sh %s/demo.sh %s" % (src, WT)); meta["ran"].append({"cmd": "demo.sh on unmodified tree", "rc": rc0})
+    rc0, o0 = sh("bash %s/demo.sh %s" % (src, WT)); meta["ran"].append({"cmd": "demo.sh on unmodified tree", "rc": rc0})
     rc, o = sh("git -C %s apply %s/patch.diff" % (WT, src)); assert rc == 0, o
     rc, o = sh("cmake --build %s/_build -j8 2>&1 | tail -3" % WT); meta["ran"].append({"cmd": "build modified tree", "rc": rc}); assert rc == 0, o
     rct, ot = sh("ctest --test-dir %s/_build -j8 2>&1 | tail -3" % WT); meta["ran"].append({"cmd": "ctest on modified tree", "rc": rct, "tail": ot.strip()})
-    rc1, o1 = sh("sh %s/demo.sh %s" % (src, WT)); meta["ran"].append({"cmd": "demo.sh on modified tree", "rc": rc1, "tail": o1[-300:]})
+    rc1, o1 = sh("bash %s/demo.sh %s" % (src, WT)); meta["ran"].append({"cmd": "demo.sh on modified tree", "rc": rc1, "tail": o1[-300:]})
     ok = rc0 == 0 and rct == 0 and "100% tests passed" in ot and rc1 != 0
     meta["confirmed"] = ok
     readme = open(os.path.join(src, "README.md")).read() if os.path.exists(os.path.join(src, "README.md")) else ""
